@@ -57,6 +57,17 @@ def run_history(lab, sc, rng_seed):
             else:
                 obs["enabled"] = st["enabled"]
                 observations.append(obs)
+        elif st.get("half"):
+            # killed after the key of these services was stored and before their certificate was: the start runs to its end
+            # and the certificates are taken out of the store again (every item is stored in a transaction of its own, so this
+            # is the state that kill leaves); what the start presented is not an observation
+            _, err = one_start(lab, datadir, st["enabled"])
+            p = subprocess.run([lab, "c18", "-datadir", datadir, "-dropkeys", ",".join("%s.pemcert" % i for i in st["half"])],
+                               stdout=subprocess.DEVNULL, stderr=subprocess.PIPE, env=dict(os.environ, VERIF_SCRATCH=lib.scratch()))
+            if err or p.returncode != 0:
+                raise lib.Infra("could not prepare the half-written state %s: %s %s" % (st["half"], err, p.stderr.decode("utf8", "replace")[-300:]))
+            log.append("killed between key and certificate of %s" % st["half"])
+            observations.append({"killed": "between key and certificate of %s" % ",".join(st["half"]), "enabled": st["enabled"]})
         else:
             delay = rng.choice([0.0, 0.005, 0.02, 0.05]) + rng.random() * 0.4
             _, msg = one_start(lab, datadir, st["enabled"], kill_after=delay)
@@ -67,7 +78,8 @@ def run_history(lab, sc, rng_seed):
 
 
 def judge(ck, sc, observations):
-    desc = "token file %r%s, starts %s" % (sc["token_file"], (", leftover token.tmp %r" % sc["tmp_file"]) if sc.get("tmp_file") is not None else "", [(s["enabled"], "completed" if s["completed"] else "killed") for s in sc["starts"]])
+    desc = "token file %r%s, starts %s" % (sc["token_file"], (", leftover token.tmp %r" % sc["tmp_file"]) if sc.get("tmp_file") is not None else "",
+                                           [(s["enabled"], "completed" if s["completed"] else ("killed between key and certificate of %s" % s["half"] if s.get("half") else "killed")) for s in sc["starts"]])
     rp = {"scenario": sc, "observations": observations}
     done = [o for o in observations if "token" in o]
     for o in observations:
@@ -118,6 +130,9 @@ def run(tier, lab):
     rd2 = lib.tlc("MC_Identity", timeout=300, constants={"Devs": '{"tmp_exclusive_create"}'}, want_scn=False)
     if rd2.violated != "Stable":
         raise lib.Infra("deviation tmp_exclusive_create does not violate Stable in the model")
+    rd3 = lib.tlc("MC_Identity", timeout=300, constants={"Devs": '{"pair_only_if_both_missing"}'}, want_scn=False)
+    if rd3.violated != "WellFormed":
+        raise lib.Infra("deviation pair_only_if_both_missing does not violate WellFormed in the model")
     g = lib.tlc("MC_IdentityGen", timeout=300, constants={"NStarts": "3" if tier == "quick" else "4"})
     lib.tlc_must_pass(g, "Identity history generation")
     ck.add_tlc(g, "Identity: restart histories over 5 service sets x completed/killed x 3 initial token states")
@@ -125,8 +140,13 @@ def run(tier, lab):
     uniq = [s for s in uniq if sum(1 for st in s["starts"] if st["completed"]) >= 1]
     n = 24 if tier == "quick" else 300
     # always include every initial token state with a plain two-start history
-    pick = rng.sample(uniq, min(n, len(uniq)))
+    halves = [s for s in uniq if any(st.get("half") for st in s["starts"])]
+    pick = rng.sample(uniq, min(n, len(uniq))) + rng.sample(halves, min(n // 2, len(halves)))
     scs = [concretise(s, rng) for s in pick]
+    # ... and the key of every certificate-bearing service without its certificate, each on its own
+    for svc in ("ftp", "smtp", "ldap"):
+        scs.append({"token_file": None, "tmp_file": None, "starts": [{"enabled": [svc], "completed": False, "half": [svc]},
+                                                                     {"enabled": [svc], "completed": True}, {"enabled": [svc, "ssh"], "completed": True}]})
     for tf in (None, "", FULL[:1], FULL[:10], FULL[:19], FULL):
         scs.append({"token_file": tf, "tmp_file": None, "starts": [{"enabled": ["ssh", "ftp"], "completed": True}, {"enabled": ["ssh", "ftp", "ldap"], "completed": True}]})
     # ... and every leftover of the temporary file beside an absent / truncated / complete token file
